@@ -26,7 +26,8 @@
     html_roundtrip_doc_strip_partial xhtml_roundtrip_doc_strip_partial xhtml_roundtrip_doc_readxml_strip_partial
     preserve_table_is_pre_textarea html_roundtrip_tree_mixed_partial xhtml_roundtrip_tree_mixed_tokens_partial
     html_roundtrip_doc_mixed_partial strip_is_norm_forest_mixed_partial html_roundtrip_doc_mixed_strip_partial
-    xhtml_roundtrip_tree_mixed_tokens_strip_partial
+    xhtml_roundtrip_tree_mixed_tokens_strip_partial xhtml_roundtrip_tree_mixed_qnames_partial
+    xhtml_roundtrip_tree_mixed_qnames_strip_partial
 -/
 import Genshi.Lemmas.ReaderXhtml
 import Genshi.Lemmas.ReaderTree
@@ -40,6 +41,7 @@ import Genshi.Lemmas.OutputWsRender
 import Genshi.Lemmas.ReaderTreeMixed
 import Genshi.Lemmas.ReaderDocMixed
 import Genshi.Lemmas.OutputWsMixed
+import Genshi.Lemmas.ReaderXmlViewMixed
 import Genshi.Lemmas.OutputSafeText
 import Genshi.Lemmas.Output
 import Genshi.Lemmas.OutputFlatten
@@ -1197,6 +1199,45 @@ theorem xhtml_roundtrip_tree_mixed_tokens_strip_partial (cache : Bool) (ns : Lis
 
 example : wsDom .xhtml exMixedWs = true ∧ xhtmlForestOk (normForest .xhtml exMixedWs) = true ∧
     forestNsValsOk (normForest .xhtml exMixedWs) = true := by decide
+
+/-- **xhtml over forests that mix namespaces, through expat's namespace resolution** (`xmlView` with
+    its scope stack): every element is read back in its OWN namespace (`forestPiecesQ`: start and end
+    tag with the qualified name of the element, `xml:` attributes in the XML namespace, every `xmlns`
+    declaration — `xmlns=""` included — consumed, text merged and verbatim, comments verbatim).
+    Hypotheses as `xhtml_roundtrip_tree_qnames_partial`: `xhtmlForestOk`, `xmlForestOk` (no character
+    data outside elements, names without colon, no attribute called `xmlns`), namespaces that can
+    stand in an attribute value. -/
+theorem xhtml_roundtrip_tree_mixed_qnames_partial (cache : Bool) (ns : List Node)
+    (hok : okList ns = true) (hns : forestMixedOk ns = true) (hh : xhtmlForestOk ns = true)
+    (hv : forestNsValsOk ns = true) (hx : xmlForestOk true ns = true) :
+    (render .xhtml { strip := false, cache := cache, doctype := none, dropXmlDecl := true } (flattenList ns)).bind
+        (fun out => (tokens true out).bind (xmlView [])) = some (mergeGoQ [] (forestPiecesQ ns)) := by
+  have h1 := xhtml_roundtrip_tree_mixed_tokens_partial cache ns hok hns hh hv
+  cases hr : render .xhtml { strip := false, cache := cache, doctype := none, dropXmlDecl := true } (flattenList ns) with
+  | none => simp [hr] at h1
+  | some out =>
+    simp only [hr, Option.bind_some] at h1 ⊢
+    rw [h1, Option.bind_some]
+    exact xmlView_forestM ns hx
+
+/-- the same with `strip_whitespace=True`: the normalised forest, every element in its own namespace -/
+theorem xhtml_roundtrip_tree_mixed_qnames_strip_partial (cache : Bool) (ns : List Node)
+    (hok : okList ns = true) (hns : forestMixedOk ns = true) (hd : wsDom .xhtml ns = true)
+    (hh : xhtmlForestOk (normForest .xhtml ns) = true) (hv : forestNsValsOk (normForest .xhtml ns) = true)
+    (hx : xmlForestOk true (normForest .xhtml ns) = true) :
+    (render .xhtml { strip := true, cache := cache, doctype := none, dropXmlDecl := true } (flattenList ns)).bind
+        (fun out => (tokens true out).bind (xmlView [])) =
+      some (mergeGoQ [] (forestPiecesQ (normForest .xhtml ns))) := by
+  rw [strip_is_norm_forest_mixed_partial .xhtml cache true none ns hok hns hd]
+  exact xhtml_roundtrip_tree_mixed_qnames_partial cache _ (okList_normForest .xhtml ns hok)
+    (mixedOk_normForest .xhtml ns hns) hh hv hx
+
+example : xmlForestOk true exMixed = true ∧ xmlForestOk true (normForest .xhtml exMixedWs) = true := by decide
+
+example : mergeGoQ [] (forestPiecesQ exMixed) =
+    [.start ⟨xhtmlNs, ['d', 'i', 'v']⟩ [], .start ⟨[], ['p']⟩ [], .start ⟨xhtmlNs, ['b', 'r']⟩ [],
+      .end_ ⟨xhtmlNs, ['b', 'r']⟩, .text ['<'], .end_ ⟨[], ['p']⟩, .start ⟨xhtmlNs, ['b']⟩ [], .start ⟨[], ['i']⟩ [],
+      .end_ ⟨[], ['i']⟩, .end_ ⟨xhtmlNs, ['b']⟩, .end_ ⟨xhtmlNs, ['d', 'i', 'v']⟩] := by decide
 
 def exProlog : List FEv :=
   [.xmlDecl ['1', '.', '0'] none (-1), .doctype ['h', 't', 'm', 'l'] none (some ['a', '"', 'b']),
